@@ -25,6 +25,31 @@ func (e *Exec) lookupIntrinsic(fn *ssa.Function) intrinsic {
 				}
 				return done(s.Len)
 			}
+		case "AsTarget":
+			return func(e *Exec, fr *Frame, fn *ssa.Function, a []Value) (Value, int) {
+				err := a[0].(IfaceVal)
+				tgt := a[1].(IfaceVal)
+				pt, ok := tgt.T.(*types.Pointer)
+				if !ok || err.T == nil {
+					return done(tFalse)
+				}
+				cell := tgt.V.(Ptr).C
+				if cell == nil {
+					e.goPanic("errors: target must be a non-nil pointer")
+				}
+				if it, isIface := pt.Elem().Underlying().(*types.Interface); isIface {
+					if types.Implements(err.T, it) {
+						e.store(cell, err)
+						return done(tTrue)
+					}
+					return done(tFalse)
+				}
+				if sameType(err.T, pt.Elem()) {
+					e.store(cell, err.V)
+					return done(tTrue)
+				}
+				return done(tFalse)
+			}
 		case "AnySwap":
 			return func(e *Exec, fr *Frame, fn *ssa.Function, a []Value) (Value, int) {
 				s := a[0].(IfaceVal).V.(SliceVal)
